@@ -199,8 +199,9 @@ class Negotiated:
         )
 
         if self.multisession:
-            sent_ms = sent_capa[Capability.CODE.MULTISESSION]
-            recv_ms = recv_capa[Capability.CODE.MULTISESSION]
+            # multisession may be in force through the Cisco code alone: the IETF entry is optional
+            sent_ms = sent_capa.get(Capability.CODE.MULTISESSION)
+            recv_ms = recv_capa.get(Capability.CODE.MULTISESSION)
             sent_ms_capa: set[int] = set(sent_ms) if isinstance(sent_ms, MultiSession) else set()
             recv_ms_capa: set[int] = set(recv_ms) if isinstance(recv_ms, MultiSession) else set()
 
@@ -216,9 +217,9 @@ class Negotiated:
             # therefore we can not collide due to the way we generate the configuration
 
             for capa in sent_ms_capa:
-                # no need to check that the capability exists, we generated it
-                # checked it is what we sent and only send MULTIPROTOCOL
-                if sent_capa[capa] != recv_capa[capa]:
+                # what we sent is ours, what the peer sent is not: a capability it left out is a
+                # mismatch (refused with 2/8 by validate), not a KeyError out of _establish
+                if sent_capa.get(capa) != recv_capa.get(capa):
                     self.multisession = (
                         2,
                         8,
